@@ -313,6 +313,12 @@ Theorem c18_dq_frame_partial : forall i,
    forall ms, dq_maps i = Some ms -> existsb dq_unset (dq_assign (dq_circ i) (combine (dq_ids i) ms)) = false) ->
   dq_final i = dq_circ i.
 Proof. exact dq_frame_partial. Qed.
+(* FULL frame statement: whenever every QPD gate of the circuit occurs in instruction_ids (dq_covers; true for
+   every instruction_ids without repeated indices, by the count check), any outcome other than Proceeds leaves
+   the argument untouched, also with inplace=True *)
+Theorem c18_dq_frame : forall i,
+  api_decompose i <> Proceeds -> dq_covers (dq_circ i) (dq_ids i) -> dq_final i = dq_circ i.
+Proof. exact dq_frame. Qed.
 Theorem c18_dq_valid : forall i ms,
   api_validate_qpd (dq_circ i) (dq_ids i) = Proceeds -> dq_maps i = Some ms ->
   length (dq_ids i) = length ms -> dq_check (dq_circ i) (combine (dq_ids i) ms) = true ->
@@ -460,7 +466,7 @@ Proof. split; reflexivity. Qed.
 
 Print Assumptions c18_weights_lt1. Print Assumptions c18_gen_budget_lt1. Print Assumptions c18_pp_phase.
 Print Assumptions c18_pcq_wide_gate. Print Assumptions c18_cg_unsupported. Print Assumptions c18_fc_wide_gate.
-Print Assumptions c18_rc_counts. Print Assumptions c18_dq_map_range. Print Assumptions c18_dq_frame_partial.
+Print Assumptions c18_rc_counts. Print Assumptions c18_dq_map_range. Print Assumptions c18_dq_frame. Print Assumptions c18_dq_frame_partial.
 Print Assumptions c18_basis_ragged. Print Assumptions c18_q1_half. Print Assumptions c18_sep_none_used.
 Print Assumptions c18_mgo_size.
 
